@@ -15,7 +15,7 @@ sys.path.insert(0, os.path.dirname(os.path.dirname(os.path.abspath(__file__))))
 
 from pyvc.contracts import Registry  # noqa: E402
 from pyvc.frontend import Repo  # noqa: E402
-from pyvc.verify import ERROR, PROVED, REFUTED, UNKNOWN, OblResult, Verifier  # noqa: E402
+from pyvc.verify import ERROR, PROVED, REFUTED, UNKNOWN, OblResult, Verifier, expand_keys  # noqa: E402
 from runner.props import PROPS  # noqa: E402
 from spec.vocab import Spec  # noqa: E402
 
@@ -33,10 +33,7 @@ def _work(key: str):
 
 def build_registry(modules: list[str]) -> Registry:
     reg = Registry()
-    reg.replay = {}  # type: ignore[attr-defined]
-    reg.witness_classes = {}  # type: ignore[attr-defined]
-    for m in modules:
-        importlib.import_module("contracts." + m).register(reg)
+    reg.load(*modules)
     return reg
 
 
@@ -46,7 +43,7 @@ def run_replay(script: str, path: str) -> tuple[bool | None, str]:
         f.write(script)
     try:
         p = subprocess.run([NATIVE_PY, path], capture_output=True, text=True, timeout=120,
-                           env={**os.environ, "PYTHONPATH": "/repo/python", "PYTHONDONTWRITEBYTECODE": "1"})
+                           env={**os.environ, "PYTHONPATH": os.path.join(os.environ.get("PYVC_REPO", "/repo"), "python"), "PYTHONDONTWRITEBYTECODE": "1"})
     except subprocess.TimeoutExpired:
         return None, "replay timed out"
     out = (p.stdout + p.stderr)[-3000:]
@@ -74,7 +71,7 @@ def main() -> int:
     ap.add_argument("-v", action="store_true")
     a = ap.parse_args()
     if a.replay:
-        p = subprocess.run([NATIVE_PY, a.replay], env={**os.environ, "PYTHONPATH": "/repo/python"})
+        p = subprocess.run([NATIVE_PY, a.replay], env={**os.environ, "PYTHONPATH": os.path.join(os.environ.get("PYVC_REPO", "/repo"), "python")})
         return p.returncode
     pid = a.prop
     if pid not in PROPS:
@@ -88,7 +85,7 @@ def main() -> int:
     reg = build_registry(cfg["modules"])
     timeout_ms = 20000 if a.tier == "quick" else 60000
     _V = Verifier(repo, reg, Spec, timeout_ms=timeout_ms)
-    keys = [k for k, c in reg.contracts.items() if pid in c.properties and not c.assumed and not k.startswith("attr:")]
+    keys = expand_keys(repo, reg, pid)
     if a.only:
         keys = [k for k in keys if k in a.only.split(",")]
     known = [f for f in load_known() if f["property"] == pid and f.get("status", "open") == "open"]
@@ -181,7 +178,8 @@ def main() -> int:
     for line in faults:
         print("CHECKER-FAULT:", line)
 
-    funcs = sorted(metas)
+    funcs = sorted(k for k, m in metas.items() if not m.get("skipped"))
+    skipped_funcs = {k: m["skipped"] for k, m in metas.items() if m.get("skipped")}
     assumptions = sorted(set(cfg.get("assumptions", []) + extra_assumptions + [
         "the VC generator (pyvc front end, symbolic executor, SMT printer) and its Python-semantics assumptions (DESIGN.md 2.2)",
         "z3 soundness",
@@ -199,6 +197,7 @@ def main() -> int:
             "checker_cmd": f"./check {pid} --tier {a.tier}",
             "trusted_base": ["pyvc (this repository)", "z3 5.1 (python3-vt)", "CPython semantics as stated in DESIGN.md 2.2"],
             "functions_under_contract": funcs,
+            "functions_not_verified": skipped_funcs,
             "function_source_hashes": {k: m.get("source_hash") for k, m in metas.items()},
             "paths_explored": sum(m.get("paths", 0) for m in metas.values()),
             "by_backend": by_solver,
